@@ -7,7 +7,7 @@ exe = os.path.join(V, "bin/ctylint")
 claimed = [c["property_id"] for c in json.load(open(os.path.join(V, "MANIFEST.json")))["checks"]]
 def cell(a):
     patch, prop = a
-    p = subprocess.run([exe, "-prop", prop, "-overlaypatch", patch, "-nocontrols", "-verif", V], capture_output=True, text=True)
+    p = subprocess.run([exe, "-prop", prop, "-overlaypatch", patch, "-nocontrols", "-verif", V], capture_output=True, text=True, errors="replace")
     return patch, prop, [l for l in p.stdout.splitlines() if l.startswith(("VIOLATION", "BROKEN"))]
 with cf.ThreadPoolExecutor(max_workers=10) as ex:
     res = {}
